@@ -541,8 +541,20 @@ def _compare_group(ctx, S, caps, label):
                         continue
                     v1, v2 = (h1[k], h2[k]) if k != "flags" else (h1[k] & ~0x800, h2[k] & ~0x800)
                     if v1 != v2:
-                        hooks.report({"kind": "cross-flavour", "pair": "sfnt/woff2", "table": "head", "field": k},
-                                     "head.%s differs between sfnt (%r) and woff2 (%r)" % (k, v1, v2), None)
+                        field = k
+                        if k in ("created", "modified"):
+                            # is it exactly the lenient reading of a bogus timestamp (top bytes dropped,
+                            # values before 1970 taken as Unix time) that a head decompile/compile performs?
+                            a, b = int.from_bytes(v1, "big"), int.from_bytes(v2, "big")
+                            a &= 0xFFFFFFFF
+                            if a < 0x7C25B080:
+                                a += 0x7C25B080
+                            if a == b:
+                                field = "timestamp-rewritten-by-head-recompile"
+                        hooks.report({"kind": "cross-flavour", "pair": "sfnt/woff2", "table": "head", "field": field},
+                                     "head.%s differs between sfnt (%r) and woff2 (%r)" % (k, v1, v2),
+                                     {"sfnt_head_loaded_before_save": "head" in base[0].get("loaded", []),
+                                      "woff2_head_loaded_before_save": "head" in w2[0].get("loaded", [])})
             g1, g2 = glyph_model(p1), glyph_model(p2)
             if g1 is None or g2 is None:
                 S["notes"]["cross:glyf-unreadable"] = S["notes"].get("cross:glyf-unreadable", 0) + 1
